@@ -62,7 +62,7 @@ def gen_cases(tier: str, seed: int) -> list[dict[str, Any]]:
         cases.append(dict(family="two", seed=seed, idx=i))
     for i in range(8 if tier == "quick" else 120):
         c = C09.gen_case(seed + 2000, i)
-        c.update(family="vinfo", scheme=["RK4", "EF", "RK2"][i % 3], diffusion=0.0, N=[49, 30, 57, 60, 53, 7, 58, 41][i % 8] if tier == "quick" else 1 + (i + seed) % 60)
+        c.update(family="vinfo", scheme=["RK4", "EF", "RK2"][i % 3], diffusion=0.0, N=[49, 30, 57, 60, 53, 1, 58, 41][i % 8] if tier == "quick" else 1 + (i + seed) % 60)
         cases.append(c)
     return cases
 
@@ -144,6 +144,7 @@ def run_case(case: dict[str, Any], wd: Path) -> dict[str, Any]:
     cnt: dict[str, int] = {}
     desc = dict(scheme=case["scheme"], diffusion=case["diffusion"], subgrid=case["subgrid"], idx=case["idx"])
     margin = dict(min_i=10**9, min_j=10**9, max_i_gap=10**9, max_j_gap=10**9)
+    known_only = [False]
 
     def shadow_tri(F, X, Y, K, A):
         sit["trilinear_calls"] = sit.get("trilinear_calls", 0) + 1
@@ -163,11 +164,16 @@ def run_case(case: dict[str, Any], wd: Path) -> dict[str, Any]:
         margin["min_j"] = min(margin["min_j"], int(np.floor(Y.min())))
         margin["max_i_gap"] = min(margin["max_i_gap"], int(nx - 1 - (i.max() + 1)))
         margin["max_j_gap"] = min(margin["max_j_gap"], int(ny - 1 - (j.max() + 1)))
-        bad = (X < 0) | (Y < 0) | (i + 1 > nx - 1) | (j + 1 > ny - 1) | (K < 1) | (K > nz - 1) | ~np.isfinite(X) | ~np.isfinite(Y)
+        bad_h = (X < 0) | (Y < 0) | (i + 1 > nx - 1) | (j + 1 > ny - 1) | ~np.isfinite(X) | ~np.isfinite(Y)
+        bad = bad_h | (K < 1) | (K > nz - 1)
         if np.any(bad):
             k = int(np.nonzero(bad)[0][0])
+            # known finding F23: with a single s-level no pair (k-1, k) of levels exists; matched only when the level index alone is out of range
+            mech = "single_s_level_forcing" if (nz == 1 and not np.any(bad_h)) else None
             V.append(C.viol(f"trilinear would read outside the field array: local position ({X[k]:.6f},{Y[k]:.6f}), level index {int(K[k])}, array shape {F.shape} "
-                            f"(elements [k-1..k, j..j+1, i..i+1] = [{int(K[k]) - 1}..{int(K[k])}, {int(j[k])}..{int(j[k]) + 1}, {int(i[k])}..{int(i[k]) + 1}])", **desc))
+                            f"(elements [k-1..k, j..j+1, i..i+1] = [{int(K[k]) - 1}..{int(K[k])}, {int(j[k])}..{int(j[k]) + 1}, {int(i[k])}..{int(i[k]) + 1}])", mechanism=mech, **desc))
+            if mech:
+                known_only[0] = True
         return None
 
     def shadow_z2s(I, J, Z, z_rho):  # noqa: E741
@@ -278,7 +284,7 @@ def run_case(case: dict[str, Any], wd: Path) -> dict[str, Any]:
             cnt["min_" + k] = v
     if not res.ok:
         if "IndexError" in res.exc or "out of bounds" in res.exc:
-            V.append(C.viol(f"bounds checker: {res.exc}", tb=res.tb[-1500:], **desc))
+            V.append(C.viol(f"bounds checker: {res.exc}", tb=res.tb[-1500:], mechanism="single_s_level_forcing" if (known_only[0] and case.get("N") == 1) else None, **desc))
         else:
             V.append(C.viol(f"run did not complete: {res.exc}", tb=res.tb[-1500:], **desc))
     key = str({k: v for k, v in case.items() if k not in ("land",)})
